@@ -21,7 +21,7 @@ LEVEL = "exploration"
 N = {"quick": 160, "thorough": 6000}
 BUDGET_S = {"quick": 150, "thorough": 1500}
 RULE = ("twin runs per bundle: canonical weather frame vs the same records after a sequence of 1-6 transformations drawn from "
-        "{column permutation, extra unrelated columns, index replaced by shuffled ints / strings / dates / offset ints, extra "
+        "{column permutation, extra unrelated columns, index replaced by shuffled ints / strings / dates / offset ints / labels that repeat (day of year, yearly restart, constant), extra "
         "leading rows, extra trailing rows}; all crop types incl. thermal-time crops (whose season-start code reads the date column). "
         "Run index i uses column permutation i mod 120 when a permutation is drawn, so all 120 orders appear within a thorough run. "
         "Non-trivial: the transformation sequence changes the column order or the row offset; distinct = distinct (configuration "
@@ -44,7 +44,7 @@ def gen_case(rng, tier, idx):
             tr.append({"op": "extra_cols", "names": rng.sample(["Wind", "Rad", "Station", "Tdew", "Year", "Day"], rng.randint(1, 3)),
                        "pos": rng.choice(["front", "back", "mixed"]), "seed": rng.getrandbits(16), "gaps": rng.random() < 0.5})
         elif kind == "reindex":
-            tr.append({"op": "reindex", "kind": rng.choice(["shuffled", "strings", "dates", "offset", "reversed_ints"]), "seed": rng.getrandbits(16)})
+            tr.append({"op": "reindex", "kind": rng.choice(["shuffled", "strings", "dates", "offset", "reversed_ints", "day_of_year", "per_year", "constant"]), "seed": rng.getrandbits(16)})
         elif kind == "pad_front":
             tr.append({"op": "pad_front", "n": rng.choice([1, 7, 365, 800]), "seed": rng.getrandbits(16)})
         else:
@@ -91,6 +91,15 @@ def apply_transforms(df, transforms):
                 df.index = pd.DatetimeIndex(df["Date"].values) + pd.Timedelta(days=int(g.integers(-500, 500)))
             elif t["kind"] == "offset":
                 df.index = pd.RangeIndex(start=int(g.integers(1, 10000)), stop=None, step=1)[:0].append(pd.Index(np.arange(n) + int(g.integers(1, 10000))))
+            elif t["kind"] == "day_of_year":
+                # labels recur every year (duplicate labels are legal in a pandas index)
+                df.index = pd.Index(pd.DatetimeIndex(df["Date"].values).dayofyear)
+            elif t["kind"] == "per_year":
+                # yearly tables concatenated without renumbering: the counter restarts every 1 January
+                d = pd.DatetimeIndex(df["Date"].values)
+                df.index = pd.Index(np.asarray(d.dayofyear) - 1 + int(g.integers(0, 3)))
+            elif t["kind"] == "constant":
+                df.index = pd.Index(np.zeros(n, dtype=int))
             else:
                 df.index = pd.Index(np.arange(n)[::-1])
         elif op in ("pad_front", "pad_back"):
@@ -107,7 +116,7 @@ def apply_transforms(df, transforms):
             extra["Date"] = dates
             extra = extra[list(df.columns)]
             df = pd.concat([extra, df] if op == "pad_front" else [df, extra], ignore_index=(df.index.dtype.kind in "iu" and df.index.is_monotonic_increasing and df.index[0] == 0))
-            if not df.index.is_unique:
+            if not df.index.is_unique and not t.get("keep_dups", True):
                 df.index = pd.RangeIndex(len(df))
     return df
 
